@@ -28,7 +28,8 @@ fn inconsistent(a: &Q, b: &Q) -> bool {
 
 pub fn main(tier: Option<&str>) {
     let run = Run::new("C13-driver", "model_checking", tier);
-    let ages: Vec<u64> = if run.quick() { vec![300, 200, 100] } else { vec![400, 300, 200, 100] };
+    // ages on both sides of the one-hour validity window: a reference quote does not stop being "an earlier one" by expiring
+    let ages: Vec<u64> = if run.quick() { vec![7300, 300, 200, 100] } else { vec![90_000, 7300, 400, 300, 200, 100] };
     let lives = [200u64, 250, 300];
     let pays = [5usize, 6];
     let maxlen = run.pick(3, 4);
